@@ -1,3 +1,4 @@
+import MageModel.Base
 /-
 Model of target/newer.go and target/target.go.
 
@@ -9,8 +10,6 @@ reports, recorded by the harness from the real file system:
   * for Glob/GlobNewer: `none` (bad pattern) or `some ms` = the matches, each with its stat result.
 Errors carry the index of the source that produced them.
 -/
-deriving instance DecidableEq for Except
-
 namespace MageModel.Target
 
 /-- One iteration of the three `for _, source := range sources` loops: go on, answer `true`, or fail. -/
